@@ -389,3 +389,53 @@ package sql
 //@   requires tx != nil && tx.tx != nil
 //@   modifies heap.all, ghost.all
 //@   ensures explicit-commit-prepares-the-branch: result == nil && ghost.xa_state == 1 ==> false
+
+// ---------------------------------------------------------------------------------------------
+// C11: phase-two commit of an AT branch = asynchronous deletion of that branch's undo log. What is
+// decided here is one pass of the worker over one resource's batch (dealWithGroupedContexts): every
+// context of the batch is either deleted - exactly its own (xid, branch id) - or put back into the
+// queue; nothing else is deleted. Liveness ("eventually") and the batching / fan-out goroutines are
+// not decided.
+//@ ghost var bd_calls int
+//@ ghost var bd_fails int
+//@ iface (undo.UndoLogManager).BatchDeleteUndoLog
+//@   modifies ghost.bd_calls, ghost.bd_fails
+//@   ensures ghost.bd_calls == old(ghost.bd_calls) + 1 && ghost.bd_fails == old(ghost.bd_fails) + ite(result != nil, 1, 0)
+//@ iface (datasource.DataSourceManager).GetCachedResources
+//@   ensures result != nil
+
+//@ func (*AsyncWorker).dealWithGroupedContexts
+//@   prop C11
+//@   requires aw != nil && aw.resourceMgr != nil && aw.rePutBackToQueue != nil && ghost.bd_calls == 0 && ghost.bd_fails == 0 && ghost.conns_out == 0
+//@   let n := len(phaseCtxs)
+//@   let q0 := chanlen(aw.commitQueue)
+//@   modifies heap.all, ghost.all
+//@   ensures nothing-lost: chanlen(aw.commitQueue) - q0 + (ghost.bd_calls - ghost.bd_fails) == n
+//@   ensures no-deletion-without-a-connection: called("Conn#1") && callres("Conn#1", 1) != nil ==> ghost.bd_calls == 0
+//@   ensures connection-released: ghost.conns_out == 0
+//@   at call BatchDeleteUndoLog: assert exactly-this-branch: len(arg_xid) == 1 && len(arg_branchID) == 1 && arg_xid[0] == phaseCtx.Xid && arg_branchID[0] == phaseCtx.BranchID && arg_conn == conn && conn != nil
+//@   loop 1 invariant requeued: rangeindex >= -1 && rangeindex + 1 <= n && chanlen(aw.commitQueue) == q0 + rangeindex + 1 && ghost.bd_calls == 0
+//@   loop 2 invariant requeued: rangeindex >= -1 && rangeindex + 1 <= n && chanlen(aw.commitQueue) == q0 + rangeindex + 1 && ghost.bd_calls == 0
+//@   loop 3 invariant requeued: rangeindex >= -1 && rangeindex + 1 <= n && chanlen(aw.commitQueue) == q0 + rangeindex + 1 && ghost.bd_calls == 0
+//@   loop 4 invariant progress: rangeindex >= -1 && rangeindex + 1 <= n && ghost.bd_calls == rangeindex + 1 && chanlen(aw.commitQueue) == q0 + ghost.bd_fails && ghost.conns_out == 1 && conn != nil
+
+//@ iface (prometheus.Counter).Add
+//@   ensures true
+//@ iface (prometheus.Gauge).Add
+//@   ensures true
+//@ func (*AsyncWorker).BranchCommit
+//@   prop C11
+//@   requires aw != nil && aw.branchCommitTotal != nil && aw.receiveChanLength != nil && ctx != nil
+//@   let q0 := chanlen(aw.commitQueue)
+//@   modifies ghost.all
+//@   ensures committed-means-queued: result0 == branch.BranchStatusPhasetwoCommitted ==> chanlen(aw.commitQueue) == q0 + 1 && result1 == nil
+//@   ensures not-queued-is-not-committed: chanlen(aw.commitQueue) == q0 ==> result0 != branch.BranchStatusPhasetwoCommitted
+//@   ensures queued-at-most-once: chanlen(aw.commitQueue) <= q0 + 1
+
+//@ func (*ATSourceManager).BranchCommit
+//@   prop C11
+//@   requires a != nil && a.worker != nil && a.worker.branchCommitTotal != nil && a.worker.receiveChanLength != nil && ctx != nil
+//@   let q0 := chanlen(a.worker.commitQueue)
+//@   modifies ghost.all
+//@   ensures committed-means-queued: result0 == branch.BranchStatusPhasetwoCommitted ==> chanlen(a.worker.commitQueue) == q0 + 1 && result1 == nil
+//@   ensures not-queued-is-not-committed: chanlen(a.worker.commitQueue) == q0 ==> result0 != branch.BranchStatusPhasetwoCommitted
